@@ -15,6 +15,16 @@ fn shard_count(rng: &mut Rng) -> u16 {
     }
 }
 
+/// `msb_ignore`: all of `u8` - ScyllaDB sends 12; 64..=255 is accepted by `ShardInfo::new` as well.
+fn msb_ignore(rng: &mut Rng) -> u8 {
+    match rng.below(12) {
+        0..=3 => 12,
+        4 => *rng.pick(&[63u8, 64, 65, 127, 128, 255]),
+        5 => rng.range(64, 255) as u8,
+        _ => rng.below(64) as u8,
+    }
+}
+
 fn port_range(rng: &mut Rng, n: u16) -> (u16, u16) {
     match rng.below(6) {
         // short range near the top (shorter than n, ending at 65535)
@@ -44,7 +54,9 @@ pub fn generate(rng: &mut Rng, tier: Tier, emit: &mut dyn FnMut(String)) {
     // shard_of: exhaustive small n x msb grid on boundary tokens, then random
     let boundary: [i64; 9] = [i64::MIN, i64::MIN + 1, -1, 0, 1, i64::MAX - 1, i64::MAX, 1 << 62, -(1 << 62)];
     for n in 1..=64u16 {
-        for msb in [0u8, 1, 7, 12, 31, 32, 62, 63] {
+        // 64..=255: values `ShardInfo::new` accepts (SCYLLA_SHARDING_IGNORE_MSB is parsed as a u8, no range test); every
+        // bit of the token is ignored then, the shard is 0, and nothing may overflow
+        for msb in [0u8, 1, 7, 12, 31, 32, 62, 63, 64, 65, 127, 128, 200, 255] {
             for t in boundary {
                 emit(format!("shard {} {} {}", n, msb, t));
                 // the same token through `FromStr` (no normalisation of i64::MIN: biased token 0)
@@ -54,12 +66,12 @@ pub fn generate(rng: &mut Rng, tier: Tier, emit: &mut dyn FnMut(String)) {
     }
     for _ in 0..2_000 * scale {
         let n = shard_count(rng);
-        let msb = if rng.chance(1, 3) { 12 } else { rng.below(64) as u8 };
+        let msb = msb_ignore(rng);
         emit(format!("shardraw {} {} {}", n, msb, rng.i64_boundary()));
     }
     for _ in 0..20_000 * scale {
         let n = shard_count(rng);
-        let msb = if rng.chance(1, 3) { 12 } else { rng.below(64) as u8 };
+        let msb = msb_ignore(rng);
         emit(format!("shard {} {} {}", n, msb, rng.i64_boundary()));
     }
     // tokens at the shard boundaries: the smallest biased token whose shifted value reaches
@@ -94,7 +106,7 @@ pub fn generate(rng: &mut Rng, tier: Tier, emit: &mut dyn FnMut(String)) {
     // algorithm written out here in u128 arithmetic and against `shard_of` on the raw token
     for _ in 0..1_000 * scale {
         let n = shard_count(rng);
-        let msb = if rng.chance(1, 3) { 12 } else { rng.below(64) as u8 };
+        let msb = msb_ignore(rng);
         emit(format!("shardspec {} {} {}", n, msb, rng.i64_boundary()));
     }
     for _ in 0..2_000 * scale {
@@ -153,6 +165,11 @@ pub fn generate(rng: &mut Rng, tier: Tier, emit: &mut dyn FnMut(String)) {
     crate::c11_plan::generate(rng, tier, emit);
 }
 
+/// `(x * 2^k) mod 2^64` for ANY `k` (0..=255 here), without a 64-bit shift: zero as soon as `k >= 64`.
+fn shl64(x: u64, k: u32) -> u64 {
+    if k >= 64 { 0 } else { (((x as u128) << k) & ((1u128 << 64) - 1)) as u64 }
+}
+
 fn opt(p: Option<u16>) -> String {
     p.map(|p| p.to_string()).unwrap_or_else(|| "none".to_owned())
 }
@@ -181,7 +198,9 @@ pub fn run(case: &str, ctx: &mut Ctx) -> String {
             // by the ignored bits, multiply by the shard count, take the high 64 bits
             let tok = Token::new(num(3)).value();
             let biased = (tok as u64).wrapping_add(1u64 << 63);
-            let shifted = biased << (num(2) as u32 & 63);
+            // (in u128, so that nothing depends on how a 64-bit shift treats an amount of 64 or more: what leaves the
+            // 64-bit word is dropped, and with msb_ignore >= 64 everything leaves it)
+            let shifted = shl64(biased, num(2) as u32);
             let expected = ((shifted as u128 * n as u128) >> 64) as u32;
             if s != expected {
                 ctx.fail(format!("shard_of = {} but ScyllaDB's algorithm gives {} (nr_shards {}, msb_ignore {}, token {})", s, expected, n, num(2), tok));
@@ -198,7 +217,7 @@ pub fn run(case: &str, ctx: &mut Ctx) -> String {
                 ctx.fail(format!("shard_of {} >= nr_shards {}", s, n));
             }
             let biased = (token.value() as u64).wrapping_add(1u64 << 63);
-            let shifted = biased << (num(2) as u32 & 63);
+            let shifted = shl64(biased, num(2) as u32);
             let expected = ((shifted as u128 * n as u128) >> 64) as u32;
             if s != expected {
                 ctx.fail(format!("shard_of = {} but ScyllaDB's algorithm gives {} (nr_shards {}, msb_ignore {}, raw token {})", s, expected, n, num(2), token.value()));
@@ -206,13 +225,14 @@ pub fn run(case: &str, ctx: &mut Ctx) -> String {
             s.to_string()
         }
         "shardspec" => {
-            // (((token + 2^63) * 2^msb) mod 2^64 * n) / 2^64 with nothing but u128 arithmetic; msb < 64
+            // (((token + 2^63) * 2^msb) mod 2^64 * n) / 2^64 with nothing but u128 arithmetic; msb 0..=255
             let (n, msb, tok) = (num(1) as u16, num(2) as u32, num(3));
-            if msb >= 64 {
+            if msb > 255 {
                 return "bad-case".to_owned();
             }
             let biased = (tok as i128 + (1i128 << 63)) as u128; // 0 ..= 2^64 - 1
-            let shifted = (biased << msb) & ((1u128 << 64) - 1);
+            // biased < 2^64: shifting by 64 or more leaves nothing below 2^64 (and u128 holds a shift below 64 exactly)
+            let shifted = if msb >= 64 { 0 } else { (biased << msb) & ((1u128 << 64) - 1) };
             let spec = ((shifted * n as u128) >> 64) as u32;
             let token: Token = w[3].parse().unwrap();
             let s = Sharder::new(ShardCount::new(n).unwrap(), msb as u8).shard_of(token);
